@@ -363,6 +363,12 @@ def _r11_345(ctx, P):
             ra = _events(o, "reattach")
             if len(ra) != 1 or ra[0][1] is not g or ra[0][2] != Sym("USER_KEEP"):
                 probs.setdefault("R11.3", "results are not passed through _reattach_coords with the grid and the caller's keep_coords")
+            # what comes back is what the function returned (padded afterwards if asked), re-labelled - nothing else
+            for x in (o.value if isinstance(o.value, (list, tuple)) else [o.value]):
+                if isinstance(x, Obj):
+                    others = [e[0] for e in x.eff if e[0] not in ("PAD", "REATTACH", "RECHUNK", "copy", "transpose")]
+                    if x.name != "RESULT" or others:
+                        probs.setdefault("R11.3", f"a returned array is {x.name!r} after {[e[0] for e in x.eff]}: the function's output is altered by {others or 'something else'} on its way back")
         if probs:
             for r, msg in sorted(probs.items()):
                 ctx.report(r, fi, name, msg)
